@@ -20,6 +20,14 @@ class Ids:
             return f'{pfx}{self.n}' + self.odd.choice(['_%s', '%s%s%s%s', '_%n', '%d%x%s', '_100%', '%%', '%5$s', '_%.99999d'])
         return f'{pfx}{self.n}'
 
+def free_dcc(cfg, want):
+    """a DCC address (h, l) not used by any train or DCC accessory of cfg, `want` if it is free"""
+    taken = {tuple(t['addr']) for t in cfg['trains']} | {tuple(a['addr']) for b in cfg['boards'] for k in ('points_dcc', 'signals_dcc') for a in (b.get(k) or [])}
+    ad = tuple(want)
+    while ad in taken:
+        ad = (ad[0], (ad[1] - 7) % 256 or 1)
+    return ad
+
 def gen_config(rng, nboards=None, rich=True, with_initial=True, max_trains=4, wide_dcc=False, odd_ids=False):
     """-> abstract config dict. Everything unambiguous: globally unique ids, per-board unique numbers/ports/addresses/CVs,
     globally unique DCC addresses."""
